@@ -380,5 +380,5 @@ def r2_r3_trxcon(L, repo, spec, us2s):
 def run(L, tier):
     repo = Repo(L.repo)
     spec = load_spec()
-    us2s = r1_python_vs_spec(L, repo, spec)
-    r2_r3_trxcon(L, repo, spec, us2s)
+    us2s = L.stage(r1_python_vs_spec, L, repo, spec)
+    L.stage(r2_r3_trxcon, L, repo, spec, us2s)
